@@ -37,8 +37,10 @@ class Minimiser(object):
         key = "cases" if "cases" in best else "ops"
         self.key = key
         # 1. truncate
-        step = result["violation"].get("step", len(best[key]) - 1)
-        if step is not None and 0 <= step < len(best[key]) - 1:
+        step = result["violation"].get("step")
+        if step is None:
+            step = len(best[key]) - 1
+        if 0 <= step < len(best[key]) - 1:
             cand = dict(best, **{key: best[key][:step + 1]})
             r = self.fails(cand, sig)
             if r:
